@@ -144,6 +144,10 @@ TResults ==
        /\ Chk("transition_infos_for_every_transition", r.ninfo = nInfo[e])
        /\ Chk("kernel_states_for_every_transition",
               r.nks = -1 \/ r.nks = (IF cfgs[e].type = INITIAL THEN 1 ELSE nInfo[e]))
+       \* ... and the t-th stored kernel state is the one *after* the t-th transition of that epoch
+       /\ Chk("stored_kernel_states_are_those_after_the_transition",
+              r.nks = -1 \/ cfgs[e].type = INITIAL \/
+                \A t \in 1..Len(r.ks_last) : r.ks_last[t] = <<"transition", e - 1, t - 1>>)
   /\ \A e \in 1..Len(quants) :
        Chk("generated_quantities_once_per_stored_iteration_from_post_transition_state",
            /\ Len(Ev.quants[e]) = Len(quants[e])
